@@ -149,15 +149,36 @@ def cfCut (s : Nat) (a : Rect) (tr tc : Int) (e : CfE) : CfE :=
     formulas := e.formulas.map fun (tpl, atoms) =>
       (tpl, atoms.map fun x => retypeAtom h h' (cutAtom a s dr dc h x)) }
 
--- models cut_paste.rs::get_cf_rules_to_copy for one entry: the overlapping parts mapped to the target, the rule
--- cloned verbatim (its text is then read at the new anchor)
+-- models cut_paste.rs::cf_sqref_top_left: top-left cell of the bounding box of all areas (the cell the rule
+-- formulas are read relative to when the rule is evaluated)
+def cfTopLeft (parts : List CfPart) : Option (Int × Int) :=
+  match parts with
+  | [] => none
+  | p :: ps =>
+    some (ps.foldl (fun (acc : Int × Int) q => (min acc.1 (min q.r1 q.r2), min acc.2 (min q.c1 q.c2)))
+      (min p.r1 p.r2, min p.c1 p.c2))
+
+-- models cut_paste.rs::get_cf_rules_to_copy + cf_rule_copy_formulas for one entry: the overlapping parts are
+-- mapped to the target; the rule formulas are read at the old top-left cell and written as seen from the new
+-- one (relative references follow the copy, absolute ones stay; a reference that leaves the grid prints #REF!)
 def cfCopy (s : Nat) (sr1 sc1 sr2 sc2 tr tc : Int) (e : CfE) : Option CfE :=
   let parts' := e.parts.filterMap (cfPartCopy sr1 sc1 sr2 sc2 tr tc)
   if parts'.isEmpty then none else
   let h := e.host s
   let e' : CfE := { parts := parts', formulas := [] }
   let h' := e'.host s
-  some { parts := parts', formulas := e.formulas.map fun (tpl, atoms) => (tpl, atoms.map (retypeAtom h h')) }
+  match cfTopLeft e.parts, cfTopLeft parts' with
+  | some (ar, ac), some (nr, nc) =>
+    let a : Host := ⟨s, ar, ac⟩
+    let n : Host := ⟨s, nr, nc⟩
+    if a = n then
+      some { parts := parts', formulas := e.formulas.map fun (tpl, atoms) => (tpl, atoms.map (retypeAtom h h')) }
+    else
+      some { parts := parts',
+             formulas := e.formulas.map fun (tpl, atoms) =>
+               -- offsets as parsed at `a`, printed (with the grid checks) at `n`, then read at the new anchor
+               (tpl, atoms.map fun x => retypeAtom n h' (rhoAtom noDisp n (retypeAtom h a x))) }
+  | _, _ => some { parts := parts', formulas := e.formulas.map fun (tpl, atoms) => (tpl, atoms.map (retypeAtom h h')) }
 
 /-! ## links -/
 
